@@ -372,3 +372,139 @@ func VerifComments() {
 	nondet.Assert(err == nil, "C03: the formatted text does not parse")
 	nondet.Cover("checked")
 }
+
+// ---- layout: the same three properties over the layout of the input.  `~`
+// is a vertical gap (nothing, or 1, 2 or 4 extra line feeds: blank lines
+// between items, statements and declarations, runs of line feeds inside long
+// strings and block comments), `^` an optional trailing comment (none, //, #,
+// /* */).  Every marker is chosen independently; at most LAYOUTS of them
+// differ from the default at a time.
+
+var LyTemplates = []string{
+	// 0: table items in groups
+	"table t {\n  \"a\": \"1\",^\n~  \"bb\": \"2\",^\n~  \"c\": \"3\",^\n}\n",
+	// 1: backend properties and a nested probe
+	"backend b {\n  .host = \"h\";^\n~  .port = \"443\";^\n~  .probe = {\n    .interval = 1s;^\n~    .timeout = 2s;^\n  }^\n}\n",
+	// 2: acl entries
+	"acl a {\n  \"10.0.0.0\"/8;^\n~  !\"10.1.0.0\"/16;^\n~  \"::1\";^\n}\n",
+	// 3: statements of a subroutine
+	"sub vcl_recv {\n~  set req.http.a = \"1\";^\n~  set req.http.bbb = \"22\";^\n~  esi;^\n~}\n",
+	// 4: statements of a switch case
+	"sub vcl_recv {\n  switch (req.http.a) {\n  case \"1\":\n    set req.http.a = \"1\";^\n~    set req.http.bbb = \"2\";^\n~    break;\n  default:\n    esi;^\n    break;\n  }^\n}\n",
+	// 5: if / else if / else with comments after the closing braces
+	"sub vcl_recv {\n  if (req.http.a) {\n    esi;\n  }^\n~  else if (req.http.b) {\n    esi;\n  }^\n~  else {\n    esi;\n  }^\n~  esi;\n}\n",
+	// 6: runs of line feeds inside a long string and a block comment
+	"sub vcl_recv {\n  set req.http.a = {\"x~y\"};\n  /* c~d */\n  esi;\n}\n",
+	// 7: the top level of a file
+	"~sub a {\n  esi;\n}^\n~backend b {\n  .host = \"h\";\n}^\n~",
+	// 8: director
+	"director d random {\n  .quorum = 50%;^\n~  { .backend = b; .weight = 1; }^\n~  { .backend = c; .weight = 2; }^\n}\n",
+	// 9: a compound condition over several lines
+	"sub vcl_recv {\n  if (req.http.a &&^\n      req.http.b ||^\n      req.http.c) {\n    esi;\n  }^\n}\n",
+	// 10: an if without else, a nested block, a return
+	"sub vcl_recv {\n  if (req.http.a) {\n~    esi;^\n~  }^\n~  {\n    esi;^\n  }^\n~  return (lookup);^\n}\n",
+	// 11: switch case statements that all carry trailing comments of different lengths (alignment groups)
+	"sub vcl_recv {\n  switch (req.http.a) {\n  case \"1\":\n    set req.http.a = \"1\"; // t1\n~    set req.http.bbbbbb = \"2\"; // t2\n~    break; // t3\n  default:\n    esi;\n    break;\n  }\n}\n",
+	// 12: subroutine statements that all carry trailing comments
+	"sub vcl_recv {\n  set req.http.a = \"1\"; // t1\n~  set req.http.bbbbbb = \"22\"; # t2\n~  esi; /* t3 */\n~  if (req.http.a) {\n    esi; // t4\n~    restart; // t5\n  }\n}\n",
+	// 13: declaration properties that all carry trailing comments
+	"backend b {\n  .host = \"h\"; // t1\n~  .connect_timeout = 1s; // t2\n~  .port = \"443\"; # t3\n}\ntable t {\n  \"a\": \"1\", // t4\n~  \"bbbb\": \"2\", // t5\n}\n",
+}
+
+func lyRender(t string, max int) string {
+	var sb strings.Builder
+	used, n := 0, 0
+	for i := 0; i < len(t); i++ {
+		switch t[i] {
+		case '~':
+			n++
+			c := nondet.Choice("g"+string(rune('a'+n)), 4)
+			if c != 0 {
+				used++
+			}
+			sb.WriteString([]string{"", "\n", "\n\n", "\n\n\n\n"}[c])
+		case '^':
+			n++
+			c := nondet.Choice("t"+string(rune('a'+n)), 4)
+			if c != 0 {
+				used++
+			}
+			text := "t" + string(rune('a'+n))
+			sb.WriteString([]string{"", " // " + text, " # " + text, " /* " + text + " */"}[c])
+		default:
+			sb.WriteByte(t[i])
+		}
+		nondet.Assume(used <= max)
+	}
+	return sb.String()
+}
+
+func lyConf() *config.FormatConfig {
+	return &config.FormatConfig{
+		IndentWidth: 2, TrailingCommentWidth: 1, IndentStyle: "space", LineWidth: 120,
+		CommentStyle:               nondet.Enum("commentstyle", []string{"none", "slash", "sharp"}),
+		ElseIf:                     nondet.Bool("elseif"),
+		AlwaysNextLineElseIf:       nondet.Bool("nextline"),
+		BreakCompoundConditions:    nondet.Bool("breakcond"),
+		IndentCaseLabels:           nondet.Bool("caseindent"),
+		AlignTrailingComment:       nondet.Bool("aligntrail"),
+		AlignDeclarationProperty:   nondet.Bool("alignprop"),
+		SortDeclarationProperty:    nondet.Bool("sortprop"),
+		SortDeclaration:            nondet.Bool("sortdecl"),
+		ReturnStatementParenthesis: true,
+	}
+}
+
+func VerifLayout() {
+	src := lyRender(LyTemplates[nondet.Param("T")], nondet.Param("LAYOUTS"))
+	mode := nondet.Param("MODE")
+	c := lyConf()
+	v1, err := fpParse(src)
+	nondet.Observe("src", src)
+	nondet.Assert(err == nil, "the template does not parse under this layout")
+	if err != nil {
+		return
+	}
+	o1, ok := fpFormat(v1, c)
+	nondet.Assert(ok, "the formatter returns no output for a parseable file")
+	if !ok {
+		return
+	}
+	v1b, _ := fpParse(src)
+	v2, err := fpParse(o1)
+	nondet.Assert(err == nil, "C03: the formatted text does not parse")
+	if err != nil {
+		return
+	}
+	switch mode {
+	case 0:
+		m := astcmp.Mode{Format: true, Literals: true, SortedProps: c.SortDeclarationProperty}
+		if c.SortDeclaration {
+			nondet.Assert(fpSameDecls(v1b.Statements, v2.Statements, m), "C03: formatting changes the program (declarations compared up to order): "+astcmp.Why)
+		} else {
+			nondet.Assert(astcmp.Stmts(v1b.Statements, v2.Statements, m), "C03: formatting changes the program: "+astcmp.Why)
+		}
+	case 1:
+		o2, ok := fpFormat(v2, c)
+		nondet.Assert(ok && o2 == o1, "C14: formatting the formatter's own output changes it")
+	default:
+		if !c.SortDeclaration && !c.SortDeclarationProperty {
+			a, b := fpComments(src), fpComments(o1)
+			same := len(a) == len(b)
+			if same {
+				for i := range a {
+					if a[i] != b[i] {
+						same = false
+					}
+				}
+			}
+			if len(b) < len(a) {
+				nondet.Assert(false, "C15: a comment is dropped by the formatter")
+			} else if len(b) > len(a) {
+				nondet.Assert(false, "C15: a comment is printed more than once")
+			}
+			nondet.Assert(same, "C15: the comments of the formatted text differ from the comments of the input")
+		}
+	}
+	nondet.Cover("checked")
+}
